@@ -211,7 +211,7 @@ reg(
 
 reg(
     "C06",
-    RULE="(redirect chain, header set, container, placement, strip set, client): chain shapes A>B, A>B>A, A>B>relative, A>A:80>B, upper-case / explicit-default-port same-origin hops, port-only and scheme-only origin changes, scheme-relative and relative Locations, all 3xx codes; sensitive headers in 9 casings, custom header names; containers dict / HTTPHeaderDict (incl. repeated Cookie fields) supplied per request or as manager default; default and custom remove_headers_on_redirect given per request or on the manager constructor; PoolManager, ProxyManager (forwarding + tunnel, with proxy_headers) and a bare pool; optionally a failing first attempt; a case is that tuple; all non-trivial; requests whose headers are all in the strip set sent through managers that have sensitive default headers of their own",
+    RULE="(redirect chain, header set, container, placement, strip set, client): chain shapes A>B, A>B>A, A>B>relative, A>A:80>B, upper-case / explicit-default-port same-origin hops, port-only and scheme-only origin changes, scheme-relative and relative Locations, all 3xx codes; sensitive headers in 9 casings, custom header names; containers dict / HTTPHeaderDict (incl. repeated Cookie fields) supplied per request or as manager default; default and custom remove_headers_on_redirect given per request or on the manager constructor; PoolManager, ProxyManager (forwarding + tunnel, with proxy_headers) and a bare pool; optionally a failing first attempt; a case is that tuple; all non-trivial; requests whose headers are all in the strip set sent through managers that have sensitive default headers of their own; optionally an earlier request with credentials of its own on the same manager (nothing of it may appear in the judged chain)",
     ASSUMPTIONS=COMMON_ASSUMPTIONS + [
         "origin equality: scheme, lower-cased host, port with defaults filled in (explicit default port and letter case are the same origin)",
         "dropping a sensitive header on a same-origin hop is counted, not a violation (the statement forbids forwarding, it does not demand forwarding)",
@@ -325,7 +325,7 @@ reg(
 
 reg(
     "C07",
-    RULE="(server certificate, client settings, route, backend): leaf in {exact, wildcard, upper-case wildcard, IPv4, IPv6, commonName-only, other name, multi-SAN} x issuer in {trusted, untrusted CA} x requested host form (case, trailing dot, sub-label, bare domain, IPv4, bracketed IPv6 with and without zone, A-label) x cert_reqs in {unset, REQUIRED, OPTIONAL, NONE} x assert_hostname in {unset, False, matching name, other name} x assert_fingerprint in {unset, sha256, sha1, md5, colon/upper-case spelling, wrong digest, bad length} x server_hostname in {unset, right, wrong} x ssl_context in {none, default-like, check_hostname off, verify none} x CA source in {ca_certs, ca_cert_data, none, and the same two naming only the second CA} x route in {direct, CONNECT tunnel through an http proxy, CONNECT tunnel through an https proxy (TLS-in-TLS, ssl backend only)} x backend in {ssl, pyOpenSSL}; one-factor-at-a-time around the secure default for every leaf x host, plus random lattice points; a case is that tuple; all non-trivial (each makes a real handshake)",
+    RULE="(server certificate, client settings, route, backend): leaf in {exact, wildcard, upper-case wildcard, IPv4, IPv6, commonName-only, other name, multi-SAN} x issuer in {trusted, untrusted CA} x requested host form (case, trailing dot, sub-label, bare domain, IPv4, bracketed IPv6 with and without zone, A-label) x cert_reqs in {unset, REQUIRED, OPTIONAL, NONE} x assert_hostname in {unset, False, matching name, other name} x assert_fingerprint in {unset, sha256, sha1, md5, colon/upper-case spelling, wrong digest, bad length} x server_hostname in {unset, right, wrong} x ssl_context in {none, default-like, check_hostname off, verify none} x CA source in {ca_certs, ca_cert_data, none, and the same two naming only the second CA} x route in {direct, CONNECT tunnel through an http proxy, CONNECT tunnel through an https proxy (TLS-in-TLS, ssl backend only)} x backend in {ssl, pyOpenSSL}; one-factor-at-a-time around the secure default for every leaf x host, plus random lattice points; a case is that tuple; all non-trivial (each makes a real handshake); plus a route 'manager-after-lax': one PoolManager from which a pool with laxer pool_kwargs (assert_hostname=False and/or cert_reqs=CERT_NONE) was obtained and used before the judged request goes out with the manager's own settings",
     ASSUMPTIONS=COMMON_ASSUMPTIONS + [
         "reference 'demanded checks': chain validation is demanded unless the effective mode is CERT_NONE (cert_reqs if given, else the caller context's verify_mode, else REQUIRED) and passes iff the leaf's issuer is the CA the client was configured with (either of two CAs can be the configured one, so that trust anchors left over from an earlier connection in the same process would show); a pin replaces the hostname check; otherwise a hostname match is demanded unless assert_hostname is False, against assert_hostname / server_hostname / the requested host (brackets, zone and trailing dot removed), judged by the three-valued RFC 6125 reference of C08 with commonName disabled",
         "cert_reqs=CERT_NONE on a caller-supplied context that keeps check_hostname on is a configuration conflict the ssl module rejects with ValueError before any I/O; only 'no bytes sent' is judged there",
@@ -343,7 +343,7 @@ reg(
 
 reg(
     "C09",
-    RULE="(proxy scheme http/https, destination scheme, use_forwarding_for_https, proxy certificate ok / wrong name / untrusted, origin certificate ok / wrong name / untrusted, CONNECT reply per connection in {200, 403, 407, 502, garbage, EOF}, proxy_headers set, request headers, destination host form incl. IPv4 / bracketed IPv6 / explicit ports, ProxyManager vs proxy_from_url, proxy URL spelling, retries, 1-3 requests to the same or mixed destinations with the server closing the connection after 1-2 requests, announced or silently): the complete truth table x certificate states x replies with 1-3 requests, plus random cases; a case is that tuple; all non-trivial",
+    RULE="(proxy scheme http/https, destination scheme, use_forwarding_for_https, proxy certificate ok / wrong name / untrusted, origin certificate ok / wrong name / untrusted, CONNECT reply per connection in {200, 403, 407, 502, garbage, EOF}, proxy_headers set, request headers, destination host form incl. IPv4 / bracketed IPv6 / explicit ports, ProxyManager vs proxy_from_url, proxy URL spelling, retries, 1-3 requests to the same or mixed destinations with the server closing the connection after 1-2 requests, announced or silently): the complete truth table x certificate states x replies with 1-3 requests, plus random cases; a case is that tuple; all non-trivial; proxy-leg verification settings for https proxies (proxy_assert_hostname match / other / wrong-name certificate's name / False, proxy_assert_fingerprint right / wrong, proxy_ssl_context with / without the CA, one shared SSLContext object for proxy leg and origin), the origin inside the tunnel presenting the proxy's certificate, redirect chains through the proxy (http->https, https->http, cross-host) with default and empty strip sets",
     ASSUMPTIONS=COMMON_ASSUMPTIONS + [
         "routing reference = the documented table: tunnel iff the destination is https and not (proxy is https and use_forwarding_for_https); with an http proxy the forwarding option has no effect (still tunnels)",
         "exception class: a CONNECT refused with a status must surface as ProxyError or SSLError (possibly as MaxRetryError.reason); a garbage or empty reply to CONNECT is not a refusal and may also surface as ProtocolError — only 'nothing was sent' is judged there; with retries the class is judged on the last attempt",
